@@ -29,7 +29,7 @@ from . import common as C
 
 PROP = "C18"
 MODEL = "Fake"
-SHARD = 60
+SHARD = 8
 CASE_TIMEOUT = 90
 RESERVED = ("example.com", "example.org", "example.net")
 RULE = ("cases: per Faker locale (quick: en_US, default, ja_JP, ko_KR + 10 sampled; thorough: all of "
@@ -176,6 +176,16 @@ def _table_part(case):
     except Exception:
         doms = None
     out["doms"] = doms
+    ig = set(out["ignore"])
+    noncall = []
+    for n in out["fk_dir"]:
+        if not n.startswith("_") and n not in ig:
+            try:
+                if not callable(getattr(f, n)):
+                    noncall.append(n)
+            except Exception:
+                noncall.append(n)
+    out["fk_noncallable"] = noncall
     try:
         from snowfakery.fakedata.fake_data_generator import FakeNames
     except Exception:
@@ -197,6 +207,7 @@ def _table_part(case):
                     else:
                         inst.faker_context.v.clear()
                         sigs.append([n, _sig(v)])
+                sigs += [["F:" + n, "!TypeError"] for n in noncall]
                 out.update(sf_dir=sf_dir, ni=ni, sigs=sigs)
             except Exception as e:
                 out["sf_problem"] = f"{type(e).__name__}: {e}"
@@ -583,7 +594,7 @@ def py_hyps(fa, sa, sigs):
     for n in fa:
         by.setdefault(canon(n), []).append(n)
     for k, v in by.items():
-        if len(set(v)) > 1:
+        if len({sg.get("F:" + n, "F:" + n) for n in v}) > 1:
             reasons.append(["faker-collision", k, sorted(set(v))])
     by = {}
     for n in sa:
@@ -679,7 +690,7 @@ def coq_case(case, obs):
         L = lambda xs: C.clist(cname(x) for x in xs)
         sigs = C.clist(C.cpair(cname(n), cname(s)) for n, s in obs["sigs"])
         return (f"CLocale {L(obs['fk_dir'])} {L(obs['ignore'])} {L(obs['sf_dir'])} {L(obs['ni'])} {sigs} "
-                f"{C.cbool(hyp_ok)} {C.clist(qs)} {C.clist(clit(d) for d in doms)} "
+                f"{C.copt(hyp_ok if case.get('queries') else None, C.cbool)} {C.clist(qs)} {C.clist(clit(d) for d in doms)} "
                 f"{C.cbool(all(d in RESERVED for d in doms))} {C.cz(obs['this_year'])} {C.clist(rows)}")
     return None
 
@@ -801,8 +812,10 @@ def oracle(case, obs):
             return f"lookup: {qd['q']!r} resolves to Faker's user_name, not Snowfakery's"
     if "sf_dir" in obs and case.get("queries"):
         ok, reasons = py_hyps(_attrs(obs["fk_dir"], obs["ignore"]), _attrs(obs["sf_dir"], []), obs["sigs"])
-        if not ok:
-            return f"lookup: locale {case['locale']}: provider names collide after canonicalisation: {reasons[:3]}"
+        asked = {canon(qd["q"]) for qd in case["queries"]}
+        rel = [r for r in reasons if r[1] in asked]
+        if rel:
+            return f"lookup: locale {case['locale']}: provider names collide after canonicalisation: {rel[:3]}"
     # rows
     users = {}
     for i, (row, ob) in enumerate(zip(case.get("rows", []), obs.get("rows", []))):
@@ -961,13 +974,15 @@ def stats(cases, obss):
                 errs["row " + str(ob["err"])] += 1
             uu = [v for m, v, _ in ob.get("flog", []) if m == "uuid4" and v]
             ms = [m for m, _, _ in ob.get("flog", [])]
+            nuser = 0
             for j, what, v, lv, form in row_walk(row, ob):
                 if what == "email":
                     d["emails"] += 1
                 else:
                     d["usernames"] += 1
-                    if not injected and uu and isinstance(v, str):
-                        d["min_uuid_chars"] = min(d["min_uuid_chars"], min(surviving_uuid_chars(v, u) for u in uu[-1:]))
+                    if not injected and isinstance(v, str) and nuser < len(uu):
+                        d["min_uuid_chars"] = min(d["min_uuid_chars"], surviving_uuid_chars(v, uu[nuser]))
+                    nuser += 1
             if "safe_domain_name" in ms:
                 branch["email/from-names"] += ms.count("safe_domain_name")
             if "ascii_safe_email" in ms:
